@@ -203,4 +203,224 @@ theorem dedupAdd_spec (ec : List Con) (s : St) :
         · exact Or.inr (Or.inl (Or.inr h))
         · exact Or.inr (Or.inr h)
 
+
+/-! ### the public `add` -/
+
+/-- what ConstraintFilterMixin._add hands down: the constraints without the concretely true ones, or — when one is
+concretely false — everything but literal `false`, and `false` -/
+def filteredOf (E : Env) (self : Ops) (cs : List Con) : List Con :=
+  match constraintFilter self cs with
+  | .ok ec => ec
+  | .error _ => (cs.filter fun c => c.id != E.falseCon.id) ++ [E.falseCon]
+
+def clAdd (E : Env) (self : Ops) (cs : List Con) (_inv : Bool) : M (List Con) :=
+  if cs.isEmpty then pure [] else if !(filteredOf E self cs).isEmpty then dedupAdd (filteredOf E self cs) else pure []
+
+theorem clStage_add (E : Env) (k : Nat) : (clStage E (k + 1)).add = clAdd E (clStage E k) := rfl
+
+/-- the filtered list handed to the deduplicator stands for the user's constraints `cs` -/
+theorem filtered_equiv {E : Env} {R : Con → Prop} (hR : Reg R E) {self : Ops} (hs : SelfOk self) (cs : List Con)
+    (hcs : ∀ c ∈ cs, R c) :
+    (∀ c ∈ filteredOf E self cs, R c) ∧ ∀ a, holdsAll (filteredOf E self cs) a = holdsAll cs a := by
+  have hfs := filter_spec hs cs (fun c hc => hR.wf c (hcs c hc))
+  unfold filteredOf
+  cases hf : constraintFilter self cs with
+  | ok ec =>
+    rw [hf] at hfs
+    refine ⟨fun c hc => hcs c (hfs.2 c hc), fun a => ?_⟩
+    have := hfs.1 a
+    rw [models_iff_holdsAll, models_iff_holdsAll] at this
+    cases h1 : holdsAll ec a <;> cases h2 : holdsAll cs a <;> simp_all
+  | error err =>
+    rw [hf] at hfs
+    simp only
+    refine ⟨?_, fun a => ?_⟩
+    · intro c hc
+      rcases List.mem_append.mp hc with hc | hc
+      · exact hcs c (List.mem_filter.mp hc).1
+      · simp only [List.mem_singleton] at hc; subst hc; exact hR.falseR
+    · have h2 : holdsAll cs a = false := by
+        have := hfs.2 a
+        rw [models_iff_holdsAll] at this
+        simpa using this
+      rw [h2, holdsAll_append]
+      simp [holdsAll, hR.falseSem a]
+
+theorem clAdd_spec {E : Env} {R : Con → Prop} (hR : Reg R E) {self : Ops} (hs : SelfOk self) (U : List Con) (s : St)
+    (h : CLInv U s) (hd : DInv R U s) (cs : List Con) (hcs : ∀ c ∈ cs, R c) (inv : Bool) :
+    ∃ added s', clAdd E self cs inv s = (.ok added, s') ∧ CLInv (U ++ cs) s' ∧ DInv R (U ++ cs) s' := by
+  unfold clAdd
+  obtain ⟨hecR, hecEq⟩ := filtered_equiv hR hs cs hcs
+  generalize filteredOf E self cs = ec at hecR hecEq ⊢
+  have hU : ∀ a, holdsAll (U ++ cs) a = (holdsAll U a && holdsAll ec a) := by
+    intro a; rw [holdsAll_append, hecEq a]
+  by_cases hemp : cs.isEmpty = true
+  · have : cs = [] := by simpa using hemp
+    subst this
+    refine ⟨[], s, by simp [pure, M.pure], ?_, ?_⟩
+    · simpa using h
+    · simpa using hd
+  · simp only [hemp, Bool.false_eq_true, ↓reduceIte]
+    by_cases hece : ec.isEmpty = true
+    · have : ec = [] := by simpa using hece
+      subst this
+      simp only [List.isEmpty_nil, Bool.not_true, Bool.false_eq_true, ↓reduceIte, pure, M.pure]
+      have hU' : ∀ a, holdsAll (U ++ cs) a = holdsAll U a := by intro a; rw [hU a]; simp [holdsAll]
+      refine ⟨[], s, rfl, ⟨h.core, fun a => by rw [hU' a]; exact h.equiv a⟩, ⟨hd.consR, fun c hc hi a ha => hd.seen c hc hi a (by rw [← hU' a]; exact ha)⟩⟩
+    · simp only [hece, Bool.not_false, ↓reduceIte]
+      obtain ⟨new, s', heq, had⟩ := dedupAdd_spec ec s
+      refine ⟨new, s', heq, ?_, ?_⟩
+      -- every element of `ec` holds wherever U and the new constraints hold
+      have hcov : ∀ a, holdsAll U a = true → holdsAll new a = true → holdsAll ec a = true := by
+        intro a hUa hna
+        rw [← models_iff_holdsAll]
+        intro c hc
+        rcases had.cover c hc with hn | hseen | ⟨c', hc', hid⟩
+        · exact (models_iff_holdsAll new a).mpr hna c hn
+        · exact hd.seen c (hecR c hc) hseen a hUa
+        · rw [hR.faithful c c' (hecR c hc) (hecR c' (had.sub c' hc')) hid.symm a]
+          exact (models_iff_holdsAll new a).mpr hna c' hc'
+      have hsubsem : ∀ a, holdsAll ec a = true → holdsAll new a = true := by
+        intro a hea
+        rw [← models_iff_holdsAll] at hea ⊢
+        exact fun c hc => hea c (had.sub c hc)
+      have hcons : ∀ a, holdsAll s'.fe.constraints a = holdsAll (U ++ cs) a := by
+        intro a
+        rw [had.cons, holdsAll_append, h.equiv a, hU a]
+        cases hUa : holdsAll U a
+        · simp
+        · simp only [Bool.true_and]
+          cases hna : holdsAll new a
+          · cases hea : holdsAll ec a
+            · rfl
+            · have := hsubsem a hea; simp [hna] at this
+          · exact (hcov a hUa hna).symm
+      · refine ⟨⟨?_, ?_, ?_, ?_⟩, hcons⟩
+        · intro a ha
+          rw [had.cons, holdsAll_append] at ha
+          rw [had.toAdd, holdsAll_append]
+          simp only [Bool.and_eq_true] at ha ⊢
+          exact ⟨h.core.toAdd_sub a ha.1, ha.2⟩
+        · intro r hr
+          rw [had.solver] at hr
+          obtain ⟨hlt, hfr, hsem⟩ := h.core.obj r hr
+          have hobj : objAt s' r = objAt s r := objAt_of_objs_eq had.objs r
+          refine ⟨by rw [had.objs]; exact hlt, by rw [hobj]; exact hfr, fun a => ?_⟩
+          rw [hobj, had.toAdd, had.cons, holdsAll_append, holdsAll_append]
+          simp only [Bool.and_eq_true]
+          constructor
+          · rintro ⟨h1, h2, h3⟩
+            exact ⟨(hsem a).mp ⟨h1, h2⟩, h3⟩
+          · rintro ⟨h1, h2⟩
+            have := (hsem a).mpr h1
+            exact ⟨this.1, this.2, h2⟩
+        · rw [had.reuse]; exact h.core.noReuse
+        · rw [had.track]; exact h.core.untracked
+      · refine ⟨?_, ?_⟩
+        · intro c hc
+          rw [had.cons] at hc
+          rcases List.mem_append.mp hc with hc | hc
+          · exact hd.consR c hc
+          · exact hecR c (had.sub c hc)
+        · intro c hc hi a ha
+          rw [hU a] at ha
+          simp only [Bool.and_eq_true] at ha
+          rcases had.ids c.id hi with hold | ⟨c', hc', hid⟩
+          · exact hd.seen c hc hold a ha.1
+          · rw [hR.faithful c c' hc (hecR c' (had.sub c' hc')) hid.symm a]
+            exact (models_iff_holdsAll ec a).mpr ha.2 c' (had.sub c' hc')
+
+
+/-! ### `simplify`, `downsize` -/
+
+/-- ConstraintDeduplicator.simplify over SimplifySkipper.simplify over FullFrontend.simplify, as a function on the state -/
+def clSimplifySt (E : Env) (s : St) : List Con × St :=
+  if s.fe.simplified then
+    (s.fe.constraints, { s with fe := { s.fe with hashes := listUnion s.fe.hashes (s.fe.constraints.map (·.id)) } })
+  else if s.fe.constraints.isEmpty then
+    let fe1 : Frontend := { s.fe with simplified := true }
+    let fe2 : Frontend := { fe1 with solver := none, toAdd := [] }
+    (s.fe.constraints, { s with fe := { fe2 with hashes := listUnion s.fe.hashes (s.fe.constraints.map (·.id)) } })
+  else
+    let out := E.simp s.fe.constraints s.tick
+    let fe1 : Frontend := { s.fe with simplified := true, constraints := out }
+    let fe2 : Frontend := { fe1 with solver := none, toAdd := [] }
+    (out, { s with tick := s.tick + 1, fe := { fe2 with hashes := listUnion s.fe.hashes (out.map (·.id)) } })
+
+theorem clStage_simplify (E : Env) (k : Nat) (s : St) :
+    (clStage E (k + 1)).simplify s = (.ok (clSimplifySt E s).1, (clSimplifySt E s).2) := by
+  show (do
+    let added ← (do
+      let fe ← M.getFe
+      if fe.simplified then pure fe.constraints
+      else do
+        M.modifyFe fun fe => { fe with simplified := true }
+        (do
+          let _ ← (do
+            let fe ← M.getFe
+            if fe.constraints.isEmpty then pure fe.constraints
+            else do
+              let s ← M.get
+              let out := E.simp fe.constraints s.tick
+              M.modify fun s => { s with tick := s.tick + 1, fe := { s.fe with constraints := out } }
+              pure out)
+          M.modifyFe fun fe => { fe with solver := none, toAdd := [] }
+          let fe ← M.getFe
+          pure fe.constraints))
+    M.modifyFe fun fe => { fe with hashes := listUnion fe.hashes (added.map (·.id)) }
+    pure added : M (List Con)) s = _
+  unfold clSimplifySt
+  simp only [bind, M.bind, M.getFe_apply]
+  cases hsimp : s.fe.simplified with
+  | true => simp [pure, M.pure, M.modifyFe_apply, hsimp]
+  | false =>
+    simp only [Bool.false_eq_true, ↓reduceIte, M.bind, M.modifyFe_apply, M.getFe_apply]
+    by_cases hemp : s.fe.constraints.isEmpty = true
+    · simp [hemp, pure, M.pure, M.bind, M.modifyFe_apply, M.getFe_apply]
+    · simp [hemp, M.bind, M.get_apply, M.modify_apply, pure, M.pure, M.modifyFe_apply, M.getFe_apply]
+
+theorem clSimplify_spec {E : Env} {R : Con → Prop} (hR : Reg R E) (hS : SimplifyEquiv E) (U : List Con) (s : St)
+    (h : CLInv U s) (hd : DInv R U s) : CLInv U (clSimplifySt E s).2 ∧ DInv R U (clSimplifySt E s).2 := by
+  -- recording the ids of constraints equivalent to U keeps the deduplication invariant
+  have hseen : ∀ (cons : List Con), (∀ c ∈ cons, R c) → (∀ a, holdsAll cons a = holdsAll U a) →
+      ∀ c, R c → (c.id ∈ listUnion s.fe.hashes (cons.map (·.id)) ∨ c.id ∈ s.fe.woAnnot) →
+      ∀ a, holdsAll U a = true → c.sem a = true := by
+    intro cons hcR heq c hc hi a ha
+    rcases hi with hi | hi
+    · rcases (mem_listUnion _ _ _).mp hi with hi | hi
+      · exact hd.seen c hc (Or.inl hi) a ha
+      · obtain ⟨c', hc', hid⟩ := List.mem_map.mp hi
+        rw [hR.faithful c c' hc (hcR c' hc') hid.symm a]
+        have : holdsAll cons a = true := by rw [heq a]; exact ha
+        exact (models_iff_holdsAll cons a).mpr this c' hc'
+    · exact hd.seen c hc (Or.inr hi) a ha
+  unfold clSimplifySt
+  cases hsimp : s.fe.simplified with
+  | true =>
+    simp only [↓reduceIte]
+    exact ⟨⟨⟨h.core.toAdd_sub, h.core.obj, h.core.noReuse, h.core.untracked⟩, h.equiv⟩,
+           ⟨hd.consR, hseen s.fe.constraints hd.consR h.equiv⟩⟩
+  | false =>
+    simp only [Bool.false_eq_true, ↓reduceIte]
+    by_cases hemp : s.fe.constraints.isEmpty = true
+    · simp only [hemp, ↓reduceIte]
+      exact ⟨⟨⟨fun a _ => rfl, fun r hr => by simp at hr, h.core.noReuse, h.core.untracked⟩, h.equiv⟩,
+             ⟨hd.consR, hseen s.fe.constraints hd.consR h.equiv⟩⟩
+    · simp only [hemp, Bool.false_eq_true, ↓reduceIte]
+      obtain ⟨heq, hwf⟩ := hS s.fe.constraints s.tick
+      have hoR := hR.simp_closed s.fe.constraints s.tick hd.consR
+      have hequ : ∀ a, holdsAll (E.simp s.fe.constraints s.tick) a = holdsAll U a := fun a => by rw [heq a, h.equiv a]
+      exact ⟨⟨⟨fun a _ => rfl, fun r hr => by simp at hr, h.core.noReuse, h.core.untracked⟩, hequ⟩,
+             ⟨hoR, hseen _ hoR hequ⟩⟩
+
+/-- FullFrontend.downsize (the mixins of this class do not override it) -/
+def clDownsizeSt (s : St) : St := { s with fe := { s.fe with solver := none, toAdd := [] } }
+
+theorem clStage_downsize (E : Env) (k : Nat) (s : St) : (clStage E (k + 1)).downsize s = (.ok (), clDownsizeSt s) := rfl
+
+theorem clDownsize_spec {R : Con → Prop} (U : List Con) (s : St) (h : CLInv U s) (hd : DInv R U s) :
+    CLInv U (clDownsizeSt s) ∧ DInv R U (clDownsizeSt s) :=
+  ⟨⟨⟨fun a _ => rfl, fun r hr => by simp [clDownsizeSt] at hr, h.core.noReuse, h.core.untracked⟩, h.equiv⟩,
+   ⟨hd.consR, hd.seen⟩⟩
+
 end Claripy.Solver
